@@ -189,18 +189,27 @@ Proof.
     specialize (Hc (u64 z)). rewrite (fun x H => N.mod_small x two64 H : wrap64 x = x) by lia. lia.
 Qed.
 
+(** the cap at store head + 1 *)
+Lemma cap_spec storeH e0 : (storeH + 1 < two64)%N ->
+  (if wrap64 (storeH + 1) <? e0 then wrap64 (storeH + 1) else e0)%N = N.min e0 (storeH + 1).
+Proof.
+  intros H. rewrite (N.mod_small _ _ H : wrap64 (storeH + 1) = (storeH + 1)%N).
+  destruct (N.ltb_spec (storeH + 1) e0); lia.
+Qed.
+
 (** C16 "never wraps", any spacing of header times: the result is a height between
-    the old tail and the head *)
+    the old tail and the head, and at most one above the store's head *)
 Lemma find_tail_in_range w b oldH oldT headH headT storeH time_at :
-  (headH < two64)%N -> (storeH <= headH)%N ->
+  (headH < two64)%N -> (storeH + 1 < two64)%N -> (oldH <= storeH <= headH)%N ->
   (forall h, (oldH <= h <= storeH)%N -> exists t, time_at h = Some t) ->
   exists x, find_tail w b oldH oldT headH headT storeH time_at = TVal x /\
-            (oldH <= x)%N /\ (x <= N.max oldH headH)%N.
+            (oldH <= x <= headH)%N /\ (x <= storeH + 1)%N.
 Proof.
-  intros H64 Hs Hl. unfold find_tail.
+  intros H64 Hs64 Hs Hl. unfold find_tail.
   destruct (find_estimate_some w b oldH oldT headH headT) as [r Hr]. rewrite Hr.
-  destruct r as [e|]; [|exists oldH; split; [reflexivity|lia]].
+  destruct r as [e0|]; [|exists oldH; split; [reflexivity|lia]].
   destruct (find_estimate_range _ _ _ _ _ _ _ H64 Hr) as [Hlt He].
+  rewrite (cap_spec storeH e0 Hs64). set (e := N.min e0 (storeH + 1)).
   set (E := headT + wrapi64 (- w)).
   destruct (scan_down_spec (S (N.to_nat (e - oldH))) E oldH storeH time_at e ltac:(lia) Hl)
     as [c (Hc & Hle & Hge & Heq & _ & _)]. rewrite Hc.
@@ -209,7 +218,7 @@ Proof.
     as [x (Hx & Hge' & Hle' & Heq' & _ & _)].
   exists x. split; [exact Hx|].
   assert (Hcr : (oldH <= c <= e)%N).
-  { destruct (N.ltb_spec oldH e); destruct (N.leb_spec e (storeH + 1)); try (rewrite Heq; lia). split; [apply Hge; lia|lia]. }
+  { destruct (N.ltb_spec oldH e); [split; [apply Hge; lia|lia]|rewrite Heq; lia]. }
   destruct (N.ltb_spec oldH c); destruct (N.ltb_spec c storeH); try (rewrite Heq'; lia).
   specialize (Hle' ltac:(lia)). lia.
 Qed.
@@ -253,90 +262,41 @@ Proof.
 Qed.
 
 (** C16 window clause, any block time, any window, any estimate: with header
-    times of the stored headers non-decreasing, a new tail at most one above the
-    store's head (anything higher cannot be moved to) has only headers older than
-    the window below it *)
+    times of the stored headers non-decreasing, the new tail has only headers
+    older than the window below it *)
 Lemma find_tail_keeps_window (t : N -> Z) w b oldH oldT headH headT storeH time_at x :
-  (oldH <= storeH)%N ->
+  (oldH <= storeH)%N -> (storeH + 1 < two64)%N ->
   (forall h, (oldH <= h < storeH)%N -> 0 <= t (h + 1)%N - t h) ->
   (forall h, (oldH <= h <= storeH)%N -> time_at h = Some (t h)) ->
-  find_tail w b oldH oldT headH headT storeH time_at = TVal x -> (x <= storeH + 1)%N ->
+  find_tail w b oldH oldT headH headT storeH time_at = TVal x ->
   forall h, (oldH <= h < x)%N -> t h < headT + wrapi64 (- w).
 Proof.
-  intros Hos Hmono Hl. unfold find_tail.
+  intros Hos Hs64 Hmono Hl. unfold find_tail.
   assert (Hl1 : forall h, (oldH <= h <= storeH)%N -> exists t0, time_at h = Some t0) by (intros; eexists; apply Hl; lia).
   assert (Hl2 : forall h, (oldH < h < storeH)%N -> exists t0, time_at h = Some t0) by (intros; apply Hl1; lia).
   destruct (find_estimate_some w b oldH oldT headH headT) as [r ->].
-  destruct r as [e|]; [|intros HH; inversion HH; subst; intros; lia].
+  destruct r as [e0|]; [|intros HH; inversion HH; subst; intros; lia].
+  rewrite (cap_spec storeH e0 Hs64). set (e := N.min e0 (storeH + 1)).
   set (E := headT + wrapi64 (- w)).
   destruct (scan_down_spec (S (N.to_nat (e - oldH))) E oldH storeH time_at e ltac:(lia) Hl1)
     as [c (Hc & Hle & Hge & Heq & _ & Hstop)]. rewrite Hc.
   destruct (scan_spec (S (N.to_nat (storeH - c))) E oldH storeH time_at c ltac:(lia) Hl2)
     as [x' (Hx & Hge' & Hle' & Heq' & Hold & _)]. rewrite Hx.
-  intros HH; inversion HH; subst x'. clear HH. intros Hxs h Hh.
+  intros HH; inversion HH; subst x'. clear HH. intros h Hh.
   pose proof (mono_of_nonneg t oldH storeH Hmono) as Mono.
   destruct (N.ltb_spec oldH e) as [Hoe|Hoe].
-  - destruct (N.leb_spec e (storeH + 1)) as [Hes|Hes].
-    + (* the downward scan ran *)
-      specialize (Hge ltac:(lia)).
-      destruct (N.ltb_spec oldH c) as [Hoc|Hoc].
-      * destruct (Hstop ltac:(lia) Hoc) as [t0 [Ht0 Hlt]]. rewrite Hl in Ht0 by lia. inversion Ht0; subst t0.
-        destruct (N.ltb_spec h c).
-        -- pose proof (Mono h (c - 1)%N ltac:(lia) ltac:(lia)). lia.
-        -- destruct (Hold h ltac:(lia)) as [t1 [Ht1 Hlt1]].
-           assert (h < storeH)%N.
-           { destruct (N.ltb_spec c storeH); [specialize (Hle' ltac:(lia)); lia|rewrite Heq' in Hh by lia; lia]. }
-           rewrite Hl in Ht1 by lia. inversion Ht1; subst. exact Hlt1.
-      * rewrite Heq' in Hh by lia. lia.
-    + rewrite Heq in * by lia. rewrite Heq' in * by lia. lia.
+  - (* the downward scan ran *)
+    specialize (Hge ltac:(lia)).
+    destruct (N.ltb_spec oldH c) as [Hoc|Hoc].
+    + destruct (Hstop ltac:(lia) Hoc) as [t0 [Ht0 Hlt]]. rewrite Hl in Ht0 by lia. inversion Ht0; subst t0.
+      destruct (N.ltb_spec h c).
+      * pose proof (Mono h (c - 1)%N ltac:(lia) ltac:(lia)). lia.
+      * destruct (Hold h ltac:(lia)) as [t1 [Ht1 Hlt1]].
+        assert (h < storeH)%N.
+        { destruct (N.ltb_spec c storeH); [specialize (Hle' ltac:(lia)); lia|rewrite Heq' in Hh by lia; lia]. }
+        rewrite Hl in Ht1 by lia. inversion Ht1; subst. exact Hlt1.
+    + rewrite Heq' in Hh by lia. lia.
   - rewrite Heq in * by lia. rewrite Heq' in * by lia. lia.
-Qed.
-
-(** under the property's hypothesis, when the "far" case is not taken and the
-    store's head is younger than the window, the new tail is a height the store
-    already holds (used for the no-wedge clause) *)
-Lemma find_tail_spaced_le_store (t : N -> Z) w b oldH headH storeH time_at :
-  (0 < b)%Z -> (0 < w)%Z -> sane w -> sane (t oldH) -> sane (t headH) ->
-  (oldH <= storeH <= headH)%N -> (headH < two64)%N ->
-  (forall h, (oldH <= h < headH)%N -> (0 <= t (h + 1)%N - t h <= b)%Z) ->
-  (forall h, (oldH <= h <= storeH)%N -> time_at h = Some (t h)) ->
-  (t headH - w - t oldH < w)%Z -> (t headH - w < t storeH)%Z ->
-  exists x, find_tail w b oldH (t oldH) headH (t headH) storeH time_at = TVal x /\ (oldH <= x <= storeH)%N.
-Proof.
-  intros Hb Hw Sw So Sh Hord H64 Hsp Hl Hnf Hyoung.
-  assert (Hl1 : forall h, (oldH <= h <= storeH)%N -> exists t0, time_at h = Some t0) by (intros; eexists; apply Hl; lia).
-  assert (Hl2 : forall h, (oldH < h < storeH)%N -> exists t0, time_at h = Some t0) by (intros; apply Hl1; lia).
-  unfold sane in *. unfold find_tail, find_estimate.
-  rewrite (wrapi64_id (- w)) by (unfold in64, min64, max64, two63; lia).
-  rewrite sat64_id by (unfold in64, min64, max64, two63; lia).
-  replace (t headH + - w)%Z with (t headH - w)%Z by lia.
-  set (E := (t headH - w)%Z). set (D := (E - t oldH)%Z).
-  pose proof (spacing_mono t b oldH headH Hb Hsp) as Mono.
-  destruct (Z.leb_spec D 0) as [HD|HD]; [exists oldH; split; [reflexivity|lia]|].
-  destruct (Z.leb_spec b 0); [lia|].
-  destruct (N.leb_spec headH oldH); [exists oldH; split; [reflexivity|lia]|]. cbn [orb].
-  destruct (Z.leb_spec w D) as [Hfar|Hclose]; [lia|].
-  rewrite (div64_pos D b) by (unfold in64, min64, max64, two63; lia).
-  assert (Hq : (0 <= D / b)%Z) by (apply Z.div_pos; lia).
-  assert (Hqb : (b * (D / b) <= D)%Z) by (apply Z.mul_div_le; lia).
-  assert (Hk : (D / b < Z.of_N (storeH - oldH))%Z).
-  { destruct (Z.ltb_spec (D / b) (Z.of_N (storeH - oldH))); [assumption|exfalso].
-    pose proof (Mono oldH storeH ltac:(lia) ltac:(lia)) as M. nia. }
-  rewrite u64_nonneg by (unfold two63, two64 in *; lia).
-  set (k := clamp_count (Z.to_N (D / b)) oldH headH).
-  assert (Hkk : (k <= Z.to_N (D / b))%N).
-  { unfold k, clamp_count, sub64. destruct (N.leb_spec oldH headH); [|lia]. destruct (N.leb_spec (headH - oldH) (Z.to_N (D / b))); lia. }
-  rewrite (fun y H => N.mod_small y two64 H : wrap64 y = y) by lia.
-  set (e := (oldH + k)%N).
-  destruct (scan_down_spec (S (N.to_nat (e - oldH))) E oldH storeH time_at e ltac:(lia) Hl1)
-    as [c (Hc & Hle & Hge & Heq & _ & _)]. rewrite Hc.
-  destruct (scan_spec (S (N.to_nat (storeH - c))) E oldH storeH time_at c ltac:(lia) Hl2)
-    as [x (Hx & Hge' & Hle' & Heq' & _ & _)].
-  exists x. split; [exact Hx|].
-  assert (Hcr : (oldH <= c <= e)%N).
-  { destruct (N.ltb_spec oldH e); destruct (N.leb_spec e (storeH + 1)); try (rewrite Heq; lia). split; [apply Hge; lia|lia]. }
-  destruct (N.ltb_spec oldH c); destruct (N.ltb_spec c storeH); try (rewrite Heq'; lia).
-  specialize (Hle' ltac:(lia)). lia.
 Qed.
 
 (** * The abstract store *)
@@ -393,8 +353,7 @@ Proof. reflexivity. Qed.
 
 (** the common end of renewTail + moveTail: the chain header x becomes the tail *)
 Inductive target_res (t h x n : N) : outcome * store * why -> Prop :=
-| TRDone st' : wf st' n -> s_tail st' = x -> (h <= s_head st') -> x <= h + 1 -> target_res t h x n (OOk, st', WDone)
-| TRDelete : h + 1 < x -> target_res t h x n (OErr, Store t h [x], WDelete).
+| TRDone st' : wf st' n -> s_tail st' = x -> (h <= s_head st') -> target_res t h x n (OOk, st', WDone).
 
 Lemma retarget_spec t h x n :
   1 <= t <= h -> h <= n -> 1 <= x <= n -> n + 2 < two64 ->
@@ -450,17 +409,30 @@ Proof.
                destruct (N.ltb_spec x x); [lia|]. cbn. destruct (N.ltb_spec h x); [lia|]. reflexivity. }
            rewrite E.
            apply TRDone; cbn; try lia. split; cbn; [reflexivity|right; lia].
-        -- (* above head + 1: DeleteRange refuses *)
+        -- (* above head + 1: the store restarts from the new tail *)
            assert (h + 1 < x) by lia.
            unfold move_tail. destruct (N.ltb_spec t x); [|lia].
-           unfold st_delete_range, st_empty, st_has, st_empty, mem. cbn.
-           rewrite (wrap64_small (h + 1)) by lia.
-           destruct (N.eqb_spec t 0); [lia|]. cbn.
-           destruct (N.leb_spec x t); [lia|]. destruct (N.ltb_spec h t); [lia|]. cbn.
-           rewrite N.eqb_refl. cbn.
-           destruct (N.eqb_spec x (h + 1)); [lia|]. cbn.
+           cbn [s_head]. rewrite (wrap64_small (h + 1)) by lia.
            destruct (N.ltb_spec (h + 1) x); [|lia].
-           apply TRDelete. lia.
+           assert (D : st_delete_range (Store t h [x]) t (h + 1) = Some (Store 0 0 [x])).
+           { unfold st_delete_range, st_empty, st_has, st_empty, mem. cbn.
+             rewrite (wrap64_small (h + 1)) by lia.
+             destruct (N.eqb_spec t 0); [lia|]. cbn.
+             destruct (N.leb_spec (h + 1) t); [lia|]. destruct (N.ltb_spec h t); [lia|]. cbn.
+             rewrite !N.eqb_refl. cbn.
+             destruct (N.leb_spec t (h + 1)); [|lia]. destruct (N.leb_spec (h + 1) h); [lia|]. cbn.
+             destruct (N.eqb_spec (h + 1) x); [lia|]. reflexivity. }
+           rewrite D.
+           assert (E : st_append (Store 0 0 [x]) x = Store x x []).
+           { unfold st_append, st_empty, st_norm, mem. cbn.
+             destruct (N.eqb_spec (x + 1) x); [lia|]. cbn.
+             destruct (N.eqb_spec (x - 1) x).
+             - destruct (N.ltb_spec 1 x); [lia|]. cbn.
+               destruct (N.ltb_spec x x); [lia|]. reflexivity.
+             - rewrite Bool.andb_false_r. cbn.
+               destruct (N.ltb_spec x x); [lia|]. reflexivity. }
+           rewrite E.
+           apply TRDone; cbn; try lia. split; cbn; [reflexivity|right; lia].
 Qed.
 
 (** what subjectiveTail can do to a well-formed store *)
@@ -468,10 +440,7 @@ Inductive sub_res (st : store) (n : N) : obs * why -> Prop :=
 | SRPanic : sub_res st n (Obs OPanic [] st, WDivZero)
 | SRStay req w : (w = WScan \/ w = WZero \/ w = WFetch) -> sub_res st n (Obs OErr req st, w)
 | SRDone req st' : wf st' n -> s_tail st' <> 0 -> s_head st <= s_head st' ->
-    Forall (fun h => 1 <= h <= n) req -> sub_res st n (Obs OOk req st', WDone)
-| SRDelete req x : s_tail st <> 0 -> s_head st + 1 < x <= n ->
-    Forall (fun h => 1 <= h <= n) req ->
-    sub_res st n (Obs OErr req (Store (s_tail st) (s_head st) [x]), WDelete).
+    Forall (fun h => 1 <= h <= n) req -> sub_res st n (Obs OOk req st', WDone).
 
 Lemma wf_empty st n : wf st n -> st_empty st = true -> st = Store 0 0 [].
 Proof.
@@ -497,16 +466,19 @@ Proof.
     pose proof (retarget_spec (s_tail st) (s_head st) x n Ht Hh Hx H64) as R.
     rewrite <- Hst in R.
     set (r := move_tail (st_append st x) (Some (s_tail st)) x) in *. clearbody r.
-    destruct R as [st' W1 W2 W3 W3'|W1]; cbn [moved].
-    + apply SRDone; auto. lia.
-    + apply SRDelete; auto; lia.
+    destruct R as [st' W1 W2 W3]; cbn [moved].
+    apply SRDone; auto. lia.
 Qed.
 
 Lemma in_chain_spec times x : in_chain times x = true <-> 1 <= x <= net_head times.
 Proof. unfold in_chain. lia. Qed.
 
-Lemma st_append_has st x : st_has st x = true -> st_append st x = st.
-Proof. intros H. unfold st_append. rewrite H. reflexivity. Qed.
+Lemma st_append_has st n x : wf st n -> st_has st x = true -> st_append st x = st.
+Proof.
+  intros [He _] H. unfold st_append. rewrite H.
+  unfold st_has in H. rewrite He in H. cbn in H. rewrite Bool.orb_false_r in H.
+  destruct (st_empty st); [discriminate|reflexivity].
+Qed.
 
 Lemma subjective_tail_spec p times st :
   let n := net_head times in
@@ -525,7 +497,7 @@ Proof.
       * assert (Hhas : st_has st x = true) by lia.
         replace (move_tail st (if st_empty st then None else Some (s_tail st)) x)
           with (move_tail (st_append st x) (if st_empty st then None else Some (s_tail st)) x)
-          by (rewrite st_append_has; auto).
+          by (erewrite st_append_has; eauto).
         assert (Hx : 1 <= x <= n).
         { unfold st_has in Hhas. destruct Hwf as [He Hc]. rewrite He in Hhas. cbn in Hhas.
           rewrite Bool.orb_false_r in Hhas. unfold st_empty in Hhas. lia. }
@@ -545,7 +517,7 @@ Proof.
       * assert (Hhas : st_has st k = true) by lia.
         replace (move_tail st (if st_empty st then None else Some (s_tail st)) k)
           with (move_tail (st_append st k) (if st_empty st then None else Some (s_tail st)) k)
-          by (rewrite st_append_has; auto).
+          by (erewrite st_append_has; eauto).
         assert (Ic : in_chain times k = true) by lia. apply in_chain_spec in Ic. fold n in Ic.
         apply target_step; auto.
       * unfold fetch_tail. destruct (in_chain times k) eqn:Ic.
@@ -603,36 +575,29 @@ Proof.
     destruct (_ <=? _); intros HH; inversion HH; auto.
 Qed.
 
-(** C16, store clause: after Start the store is one gap-free chain within the
-    network chain with 1 <= Tail <= Head and nothing outside of it -- unless
-    DeleteRange refused to move the tail up (WDelete), which leaves exactly one
-    orphan above head + 1 *)
+(** C16, store clause, FULL: after Start the store is one gap-free chain within
+    the network chain with 1 <= Tail <= Head and nothing retrievable outside of it
+    -- every parameter set, chain, clock, and every outcome of Start *)
 Theorem start_run_store p times now st :
   let n := net_head times in
   wf st n -> n + 2 < two64 ->
   let '(o, w) := start_run p times now st in
-  (w <> WDelete -> wf (o_store o) n /\ (s_tail st <> 0 -> s_tail (o_store o) <> 0)) /\
-  (w = WDelete -> o_out o = OErr /\ exists t h x, o_store o = Store t h [x] /\ 1 <= t <= h /\ h + 1 < x <= n).
+  wf (o_store o) n /\ (s_tail st <> 0 -> s_tail (o_store o) <> 0) /\ w <> WDelete.
 Proof.
   intros n Hwf H64. unfold start_run.
   destruct (start_call p times now st) as [w0|[init st1]] eqn:SC.
-  - destruct (start_call_inl _ _ _ _ _ SC) as [Hw0|[Hw0|Hw0]]; subst w0; cbn; (split; [intros _; auto|discriminate]).
+  - destruct (start_call_inl _ _ _ _ _ SC) as [Hw0|[Hw0|Hw0]]; subst w0; cbn; repeat split; auto; discriminate.
   - destruct (start_call_wf p times now st init st1 Hwf H64 SC) as (Hwf1 & Ht1 & Hst1).
     assert (Hv : params_valid p = true).
     { unfold start_call in SC. destruct (params_valid p); [reflexivity|discriminate]. }
     pose proof (subjective_tail_spec p times st1 Hwf1 H64 Hv) as R. fold n in R.
     set (r := subjective_tail p times st1) in *. clearbody r.
-    destruct R as [|req w' Hw'|req st' W1 W2 W3 W4|req x W1 W2 W3];
-      cbn [o_out o_req o_store].
-    + split; [intros _; split; [auto|lia]|discriminate].
-    + split; [intros _; split; [auto|lia]|intros ->; destruct Hw' as [|[|]]; discriminate].
-    + split; [|discriminate]. intros _. destruct init.
-      * destruct (wf_adopt times st' W1 W2) as [A1 A2]. split; [exact A1|]. rewrite A2. auto.
-      * destruct (wf_sync_up st' n n W1 W2 ltac:(lia)) as [A1 A2]. fold n. split; [exact A1|]. rewrite A2. auto.
-    + split; [intros C; contradiction|]. intros _. split; [reflexivity|].
-      exists (s_tail st1), (s_head st1), x. split; [reflexivity|].
-      assert (E : st_empty st1 = false) by (unfold st_empty; lia).
-      destruct (wf_nonempty st1 n Hwf1 E) as (_ & Ht & Hh). lia.
+    destruct R as [|req w' Hw'|req st' W1 W2 W3 W4]; cbn [o_out o_req o_store].
+    + repeat split; auto; [lia|discriminate].
+    + repeat split; auto; [lia|]. intros ->. destruct Hw' as [|[|]]; discriminate.
+    + destruct init.
+      * destruct (wf_adopt times st' W1 W2) as [A1 A2]. repeat split; [exact A1|rewrite A2; auto|discriminate].
+      * destruct (wf_sync_up st' n n W1 W2 ltac:(lia)) as [A1 A2]. fold n. repeat split; [exact A1|rewrite A2; auto|discriminate].
 Qed.
 
 
@@ -723,7 +688,7 @@ Proof.
     pose proof (retarget_spec (s_tail st) (s_head st) x n Ht Hh Hx H64) as R.
     rewrite <- Hst in R.
     set (r := move_tail (st_append st x) (Some (s_tail st)) x) in *. clearbody r.
-    destruct R as [st' W1 W2 W3 W3'|W1]; cbn; auto; discriminate.
+    destruct R as [st' W1 W2 W3]; cbn; auto.
 Qed.
 
 Lemma subjective_tail_window_tail p times st x :
@@ -738,7 +703,7 @@ Proof.
   - assert (Hhas : st_has st x = true) by lia.
     replace (move_tail st (if st_empty st then None else Some (s_tail st)) x)
       with (move_tail (st_append st x) (if st_empty st then None else Some (s_tail st)) x)
-      by (rewrite st_append_has; auto).
+      by (erewrite st_append_has; eauto).
     assert (Hx : 1 <= x <= net_head times).
     { unfold st_has in Hhas. destruct Hwf as [He Hc]. rewrite He in Hhas. cbn in Hhas.
       rewrite Bool.orb_false_r in Hhas. unfold st_empty in Hhas. lia. }
@@ -797,7 +762,7 @@ Proof.
   - assert (Hhas : st_has st x = true) by lia.
     replace (move_tail st (if st_empty st then None else Some (s_tail st)) x)
       with (move_tail (st_append st x) (if st_empty st then None else Some (s_tail st)) x)
-      by (rewrite st_append_has; auto).
+      by (erewrite st_append_has; eauto).
     destruct (target_step_full st (net_head times) x [] Hwf Hx H64) as (A & C & D & F).
     repeat split; auto. rewrite D. constructor.
   - unfold fetch_tail. assert (Ic : in_chain times x = true) by (apply in_chain_spec; lia).
@@ -1144,21 +1109,14 @@ Lemma find_tail_val w b oldH oldT headH headT storeH time_at :
 Proof.
   intros Hl. unfold find_tail.
   destruct (find_estimate_some w b oldH oldT headH headT) as [r ->].
-  destruct r as [e|]; [|eauto].
+  destruct r as [e0|]; [|eauto].
+  set (e := (if wrap64 (storeH + 1) <? e0 then wrap64 (storeH + 1) else e0)%N).
   set (E := (headT + wrapi64 (- w))%Z).
   destruct (scan_down_spec (S (N.to_nat (e - oldH))) E oldH storeH time_at e ltac:(lia) Hl)
     as [c (Hc & _)]. rewrite Hc.
   assert (Hl' : forall h, (oldH < h < storeH)%N -> exists t, time_at h = Some t) by (intros; apply Hl; lia).
   destruct (scan_spec (S (N.to_nat (storeH - c))) E oldH storeH time_at c ltac:(lia) Hl') as [x (Hx & _)].
   eauto.
-Qed.
-
-Lemma scan_val_of_lookups fuel E oldH storeH time_at cur :
-  (N.to_nat (storeH - cur) < fuel)%nat ->
-  (forall h, oldH < h < storeH -> exists t, time_at h = Some t) ->
-  exists x, scan fuel E oldH storeH time_at cur = TVal x.
-Proof.
-  intros Hf Hl. destruct (scan_spec fuel E oldH storeH time_at cur Hf Hl) as [x [Hx _]]. eauto.
 Qed.
 
 Lemma tail_calc_no_err p times st :
